@@ -48,7 +48,9 @@ func runC09(c *Ctx) {
 		}
 		c.Floor("R9.1", "state writes in applyPacketToState", n, 1)
 		// gossiping onward happens only after verification too
-		for _, ci := range callsIn(ap, func(ci ssa.CallInstruction) bool { return strings.HasSuffix(calleeName(ci), "internal/dkg.Process).gossip") }) {
+		for _, ci := range callsIn(ap, func(ci ssa.CallInstruction) bool {
+			return strings.HasSuffix(calleeName(ci), "internal/dkg.Process).gossip")
+		}) {
 			c.Ok("R9.1", "a packet is relayed only after its signature verified", shortPos(c.P, ci), verify != nil && guardedByOK(ci.(ssa.Instruction), verify), "")
 		}
 	}
@@ -383,6 +385,17 @@ func concatOrder(cc *ssa.Call) bool {
 // and the assigning block leaves the loop (break).
 func selectedByFirstMatch(fn *ssa.Function, pv ssa.Value) bool {
 	ph, ok := stripConv(pv).(*ssa.Phi)
+	if !ok {
+		// the use may have been threaded past `if selected == nil { return }` to the loop element itself: the selection
+		// phi is then among the element's referrers
+		if refs := stripConv(pv).Referrers(); refs != nil {
+			for _, r := range *refs {
+				if p2, isPhi := r.(*ssa.Phi); isPhi {
+					ph, ok = p2, true
+				}
+			}
+		}
+	}
 	if !ok {
 		return false
 	}
